@@ -250,6 +250,7 @@ func checkArrayAlgebra(p *Program, r *Report, prop string) {
 	}
 	r.Floor("R01.4", "stride/shape constructions", n4, floor4)
 
+	checkNoDoubleStep(p, r, prop)
 	r.Rule("R01.5", "views are live: a view object holds nothing but strides and the shared storage (no second element buffer), and what Unroll hands out is the storage itself or gathered in the same call, never a copy cached in the view")
 	// R01.2 / R01.3
 	ats := arrayTypes(p)
@@ -470,4 +471,72 @@ func guardedByContiguous(b *ssa.BasicBlock, accept func(recv ssa.Value) bool) bo
 		}
 	}
 	return false
+}
+
+
+// checkNoDoubleStep (R01.6): a step is applied once. Where a view v is cut with x.Slice(loc, dims, step), no
+// operation on v itself (Apply, ApplySlice, Slice) is given a step derived from that same step vector: v's own
+// indices already advance by it, so applying it again addresses loc + i*step² of the parent.
+func checkNoDoubleStep(p *Program, r *Report, prop string) {
+	r.Rule("R01.6", "a step is applied once: an operation on a view that was cut with Slice(·,·,step) is never given a step derived from that same step vector (the view's indices already advance by it)")
+	n := 0
+	for _, fn := range dataFuncs(p) {
+		inC := relPkg(fnPkg(fn).Path()) == "data/cdata"
+		if prop == "C03" && !inC {
+			continue
+		}
+		k := 0
+		for _, c := range callsIn(fn) {
+			nm := callName(c.Common())
+			stepArg := -1
+			switch nm {
+			case "Apply":
+				stepArg = 2
+			case "ApplySlice":
+				stepArg = 1
+			case "Slice":
+				stepArg = 2
+			}
+			recv := recvOf(c.Common())
+			args := callArgs(c.Common())
+			if stepArg < 0 || recv == nil || stepArg >= len(args) || !isNDType(recv.Type()) {
+				continue
+			}
+			// the receiver is the result of a Slice with a step vector
+			var cut *ssa.Call
+			for _, o := range origins(recv) {
+				if oc, ok := stripConv(o).(*ssa.Call); ok && callName(oc.Common()) == "Slice" && len(callArgs(oc.Common())) == 3 {
+					cut = oc
+				}
+			}
+			if cut == nil {
+				continue
+			}
+			stepVec := callArgs(cut.Common())[2]
+			if isNilConst(stepVec) {
+				continue
+			}
+			n++
+			k++
+			key := fmt.Sprintf("%s:double-step#%d", FuncKey(fn), k)
+			base := origin1(stepVec)
+			derived := dependsOn(args[stepArg], func(x ssa.Value) bool {
+				if x == stepVec || x == base {
+					return true
+				}
+				if u, ok := x.(*ssa.UnOp); ok {
+					if ia, ok := u.X.(*ssa.IndexAddr); ok && (ia.X == stepVec || origin1(ia.X) == base) {
+						return true
+					}
+				}
+				return false
+			}, map[ssa.Value]bool{})
+			if derived {
+				r.Fail("R01.6", key, p.Pos(c.Pos()), fmt.Sprintf("%s is applied to a view that was cut with a step vector, and is given a step taken from that same vector: the step is applied twice (element i lands at loc + i·step² of the parent)", nm))
+			} else {
+				r.OK("R01.6", fmt.Sprintf("%s: %s on a stepped view does not re-apply the view's own step", FuncKey(fn), nm))
+			}
+		}
+	}
+	r.Analysed["R01.6 operations on views cut with a step"] = n
 }
